@@ -41,16 +41,29 @@ func (e *emitter) untrusted(prefix string, f func() string) {
 		f()
 		return
 	}
+	flush := func() {
+		for _, l := range e.deferred {
+			e.line("%s", l)
+		}
+		e.deferred = nil
+	}
 	if e.child {
 		fmt.Fprintf(e.w, "\x01%d\x02%s ", idx, prefix)
 		e.w.Flush()
+		e.inCall = true
 		res := f()
+		e.inCall = false
 		e.w.WriteString(res)
 		e.w.WriteByte('\n')
 		e.lines++
+		flush()
 		return
 	}
-	e.line("%s %s", prefix, f())
+	e.inCall = true
+	res := f()
+	e.inCall = false
+	e.line("%s %s", prefix, res)
+	flush()
 }
 
 func orchestrate(cfg runCfg) int {
